@@ -522,9 +522,6 @@ func Explore(p *Profile, nproc int, deadline time.Time) (*Result, error) {
 		res.MaxDepth = depth
 	}
 	res.States++ /* The initial state. */
-	if res.Unstable > 2+res.States/500 {
-		return res, fmt.Errorf("harness nondeterminism: %d of %d states would not replay; last: %s", res.Unstable, res.States, res.UnstableNote)
-	}
 
 	/* Confirm every violation: the same history must fail the same way
 	five times on fresh worlds. */
@@ -566,6 +563,16 @@ func Explore(p *Profile, nproc int, deadline time.Time) (*Result, error) {
 			res.Unconfirmed++
 			res.UnconfirmedNote = fmt.Sprintf("%s after %s reproduced in %d of 5 replays", k, HistString(v.Hist), hits)
 		}
+	}
+	if res.Unstable > 2+res.States/500 {
+		if 0 == len(res.Viols) {
+			return res, fmt.Errorf("harness nondeterminism: %d of %d states would not replay; last: %s", res.Unstable, res.States, res.UnstableNote)
+		}
+		/* The program under test misbehaves and is not deterministic about
+		it: what was confirmed is reported, the rest of the space was not
+		covered. */
+		res.Exhaustive = false
+		res.CapNote = fmt.Sprintf("%d of %d states would not replay (the program's behaviour is not a function of the history); %s", res.Unstable, res.States, res.CapNote)
 	}
 	return res, nil
 }
